@@ -11,6 +11,11 @@ k-th batch label; the raw labels of an un-normalised clock are supplied by the h
   step <s|-> | steps <m> <s|-> | stream <s|->   -> replies `lbl:v,v` / `stopped`, separated by `|`
   results | byeq | flat
   batchdf <c0> <eqs> | batchdict <c0> <eqs>
+
+Wave 2: `model … <fam>` with fam 1 = the look-back family (f = max(0, delay(g, 2·dt)), g = c*a an auxiliary that
+is never requested); next to the abstract session the driver runs the MEMO-LEVEL session of Core/C09
+(`mstep` over C08's `evalK`, definitions rebound by step settings, memo never reset, finalisation set from
+the cfg) on the same single steps; `mresults` prints its log in the format of `results`.
 -/
 open Bptk.C09
 
@@ -35,10 +40,30 @@ structure Lin where
   b : Float
   s0 : Float
   dt : Float
+  fam : Nat := 0
 
 def flowAt (m : Lin) (f : Nat → Float) (k : Nat) : Float :=
-  let x := f k * m.a
+  let x := (if m.fam == 1 then f (k - 2) else f k) * m.a
   if x > 0.0 then x else 0.0
+
+/-! memo level: the function strings of the two families in C08's expression language.
+ids 0 = c, 1 = f, 2 = s, 3 = k, 4 = g, 5 = g1 (`delay(g, 2·dt)` = `delay(delay(g, dt), dt)`, clamped at the start) -/
+open Bptk.C08 (Expr) in
+def bodies (m : Lin) (c0 : Float) : Nat → Expr Float := fun n =>
+  match n with
+  | 0 => .lit c0
+  | 1 => if m.fam == 1 then .max0 (.atStart (.ref 5) (.prev 5)) else .max0 (.bin 2 (.ref 0) (.lit m.a))
+  | 2 => .atStart (.lit m.s0) (.bin 0 (.prev 2) (.bin 2 (.lit m.dt) (.prev 1)))
+  | 3 => .bin 0 (.bin 2 (.ref 2) (.lit m.b)) (.ref 0)
+  | 4 => .bin 2 (.ref 0) (.lit m.a)
+  | _ => .atStart (.ref 4) (.prev 4)
+
+def fOps : Bptk.C08.Ops Float :=
+  { bin := fun op x y => match op with | 0 => x + y | 1 => x - y | 2 => x * y | _ => x / y
+    max0 := fun x => if x > 0.0 then x else 0.0 }
+
+def mKind : Nat → Bptk.C08.Kind := fun n => if n == 1 then .flow else if n == 2 then .stock else .other
+def mNEq (m : Lin) : Nat := if m.fam == 1 then 6 else 4
 
 def stockAt (m : Lin) (f : Nat → Float) : Nat → Float
   | 0 => m.s0
@@ -75,28 +100,43 @@ structure DS where
   eqs : List Nat
   lazy : Bool
   st : Sess Float String Float
+  ms : Option (MSess Float) := none      -- the memo-level session (none: an evaluation did not return)
 
 def mkSpec (n stride : Nat) (raw : List String) : Spec String :=
   { n := n, stride := stride, label := fun k => s!"i{k}", rawLabel := fun k => raw.getD k "x" }
 
+def mAdvance (d : DS) (ms : MSess Float) (s : Option Float) : Option (MSess Float) :=
+  if ms.k > d.spec.n then some ms else      -- "Stoptime reached": nothing happens
+  mstep (finSet d.c) (mNEq d.m) mKind fOps (4 * d.spec.n + 32) d.eqs ms (match s with | some v => [(0, v)] | none => [])
+
 def doCall (d : DS) (cl : Call Float) : DS × String :=
   let r := call d.c (linSim d.m) d.spec d.eqs d.lazy d.st cl
-  ({ d with st := r.1 }, showReplies r.2)
+  let singles := expand d.c d.spec [cl] d.st.k
+  let ms := singles.foldl (fun acc s => acc.bind (fun x => mAdvance d x s)) d.ms
+  ({ d with st := r.1, ms := ms }, showReplies r.2)
 
 def stepLine (d : DS) (line : String) : DS × String :=
   match line.trimAscii.toString.splitOn " " with
-  | ["cfg", a, b, f] => ({ d with c := ⟨a == "1", b == "1", f == "1"⟩ }, "ok")
+  | ["cfg", a, b, f] => ({ d with c := ⟨a == "1", b == "1", f == "1", true⟩ }, "ok")
+  | ["cfg", a, b, f, g] => ({ d with c := ⟨a == "1", b == "1", f == "1", g == "1"⟩ }, "ok")
   | ["model", a, b, s0, dt] =>
       match parseHex a, parseHex b, parseHex s0, parseHex dt with
-      | some a, some b, some s0, some dt => ({ d with m := ⟨a, b, s0, dt⟩ }, "ok")
+      | some a, some b, some s0, some dt => ({ d with m := ⟨a, b, s0, dt, 0⟩ }, "ok")
       | _, _, _, _ => (d, "bad-op")
+  | ["model", a, b, s0, dt, fam] =>
+      match parseHex a, parseHex b, parseHex s0, parseHex dt, fam.toNat? with
+      | some a, some b, some s0, some dt, some fam => if fam ≤ 1 then ({ d with m := ⟨a, b, s0, dt, fam⟩ }, "ok") else (d, "bad-op")
+      | _, _, _, _, _ => (d, "bad-op")
   | ["spec", n, stride, raw] =>
       match n.toNat?, stride.toNat? with
       | some n, some st => ({ d with spec := mkSpec n st (raw.splitOn ",") }, "ok")
       | _, _ => (d, "bad-op")
   | ["begin", c0, lz, eqs] =>
       match parseHex c0, parseNats eqs with
-      | some c0, some eqs => ({ d with eqs := eqs, lazy := lz == "1", st := begin c0 }, "ok")
+      | some c0, some eqs =>
+          if eqs.all (· < 4) then
+            ({ d with eqs := eqs, lazy := lz == "1", st := begin c0, ms := some (mbegin (bodies d.m c0)) }, "ok")
+          else (d, "bad-op")
       | _, _ => (d, "bad-op")
   | ["step", s] => match parseSet s with
       | some s => doCall d (.step s)
@@ -108,6 +148,13 @@ def stepLine (d : DS) (line : String) : DS × String :=
       | some s => doCall d (.stream s)
       | none => (d, "bad-op")
   | ["results"] => (d, if d.st.log.isEmpty then "-" else "|".intercalate ((resultsByTime d.st).map showRow))
+  | ["mresults"] =>
+      if !d.c.sessionDtFromScenario then (d, "n/a") else
+      match d.ms with
+      | none => (d, "no-return")
+      | some ms =>
+          (d, if ms.log.isEmpty then "-" else
+            "|".intercalate (ms.log.zipIdx.map fun (row, j) => showRow (lbl d.c d.spec j, row)))
   | ["byeq"] => (d, ";".intercalate ((resultsByEq d.eqs d.st).map fun p =>
       s!"{p.1}=" ++ ",".intercalate (p.2.map fun x => x.1 ++ ":" ++ showOptV x.2)))
   | ["flat"] => (d, ";".intercalate ((resultsFlat d.eqs d.st).map fun p =>
@@ -129,5 +176,5 @@ partial def loop (h : IO.FS.Stream) (d : DS) : IO Unit := do
   loop h d'
 
 def main : IO Unit := do
-  loop (← IO.getStdin) { c := ⟨true, true, true⟩, m := ⟨1.0, 1.0, 0.0, 1.0⟩, spec := mkSpec 0 1 [], eqs := [],
+  loop (← IO.getStdin) { c := ⟨true, true, true, true⟩, m := ⟨1.0, 1.0, 0.0, 1.0, 0⟩, spec := mkSpec 0 1 [], eqs := [],
                          lazy := false, st := begin 0.0 }
